@@ -6,7 +6,8 @@
    quantification over h (all interleavings of the keys' rows). No reap step (STATETTL). *)
 From Coq Require Import Permutation.
 From SV Require Import Model.GroupKey Model.Counting Model.NumCarrier Spec.GroupSpec Proofs.GroupKeyProofs Proofs.CountingProofs
-  Proofs.NumCarrierProofs Model.CountingLag Proofs.CountingLagProofs Model.CountingBlock Proofs.CountingBlockProofs.
+  Proofs.NumCarrierProofs Model.CountingLag Proofs.CountingLagProofs Model.CountingBlock Proofs.CountingBlockProofs
+  Model.CountingFail Proofs.CountingFailProofs.
 
 (* the i-th batch (i = 0, 1, ..) delivered for the key tuple t is exactly rows i*N+1 .. (i+1)*N of
    t's subsequence, in order, and there is an i-th batch only if t has (i+1)*N rows *)
@@ -290,3 +291,43 @@ Example C09_block_example :
   lg_queue s = [] /\ lg_dropped s = 3 /\ lg_evicted s = 0 /\ lg_sent s = 2
   /\ map (fun b => map krid (snd b)) (lg_taken s) = [[1; 2]; [3; 4]]%Z.
 Proof. exact blk_full_drops_new. Qed.
+
+(* ---- a batch whose aggregation fails half-way (Model/CountingFail.v: ONE aggregator lives across batches; a
+   user function inside an aggregate argument panics on a row; processWindowBatchSafe recovers and Resets) ---- *)
+
+(* for every set of failing rows: what is delivered is the window's batch sequence without the batches that
+   hold a failing row, every delivered result computed over exactly the rows of its own batch (the rows added
+   before the failure never reach a later result), and the aggregator is empty between batches *)
+Theorem C09_fail_loses_whole_batches : forall fails bs,
+  fc_out (fc_run fails bs) = filter (fc_clean fails) bs /\ fc_agg (fc_run fails bs) = [].
+Proof. exact fail_loses_whole_batches. Qed.
+Print Assumptions C09_fail_loses_whole_batches.
+
+Theorem C09_fail_never_merges : forall fails bs, sublist (fc_out (fc_run fails bs)) bs.
+Proof. exact fail_never_merges. Qed.
+Print Assumptions C09_fail_never_merges.
+
+(* no failing row in any cut batch => exactly the window's batches *)
+Theorem C09_fail_exact_without_failure : forall fails bs,
+  forallb (fc_clean fails) bs = true -> fc_out (fc_run fails bs) = bs.
+Proof. exact fail_exact_without_failure. Qed.
+Print Assumptions C09_fail_exact_without_failure.
+
+(* per key tuple the delivered id lists are N-blocks (i-1)N+1..iN of the tuple's rows, in increasing order
+   (the blocks chk_C09_lossy_sql demands), also after failed batches of the same or of other keys *)
+Theorem C09_fail_blocks_per_key : forall fails n sch h t, 1 <= n ->
+  Forall (fun r => conforms sch (ktuple_of r)) h -> conforms sch t ->
+  sublist (map (map krid) (kbatches_of (tuple_key s_global t) (fc_out (fc_run fails (cw_run n h)))))
+          (let ids := map krid (krows_of t h) in chunks (length ids) n ids).
+Proof. exact fail_blocks_per_key. Qed.
+Print Assumptions C09_fail_blocks_per_key.
+
+(* non-vacuity: N = 3, keys A A A | A A* A | B B B | A A A, row 5 fails: batch [4;5;6] is lost, nothing of it
+   (row 4 was already added) reaches the result of B's batch or of A's next batch *)
+Example C09_fail_example :
+  let a := [Some (KStr [65%N])] in let b := [Some (KStr [66%N])] in
+  let h := [mkKRow 1 a; mkKRow 2 a; mkKRow 3 a; mkKRow 4 a; mkKRow 5 a; mkKRow 6 a;
+            mkKRow 7 b; mkKRow 8 b; mkKRow 9 b; mkKRow 10 a; mkKRow 11 a; mkKRow 12 a]%Z in
+  map (fun x => map krid (snd x)) (fc_out (fc_run (fun r => Z.eqb (krid r) 5) (cw_run 3 h)))
+  = [[1; 2; 3]; [7; 8; 9]; [10; 11; 12]]%Z.
+Proof. reflexivity. Qed.
